@@ -95,11 +95,11 @@ func (p *c11) buildRec(j int) (*Program, string) {
 // executor (or Twig) binds itself, tags. As the name of a macro reached through _self or an alias, and as the name
 // of a parameter, they are names like any other.
 var (
-	c11MacroNames = []string{"block", "parent", "include", "range", "loop", "varargs", "macro", "set", "length", "m"}
+	c11MacroNames = []string{"block", "parent", "include", "range", "loop", "varargs", "macro", "set", "length", "m", "templateName", "TemplateName", "name", "Name", "keys", "String", "_self"}
 	c11ParamNames = []string{"varargs", "loop", "_context", "_key", "_seq", "_parent", "block", "parent", "args", "self", "macro", "p"}
 )
 
-const c11nNames = 10 * 12 * 3
+const c11nNames = 17 * 12 * 3
 
 // buildNames: macro c11MacroNames[a] with the parameters (c11ParamNames[b], q), called with 1, 2 and 4 arguments
 // through _self, through an alias and through a renaming from-import.
